@@ -191,6 +191,9 @@ pub fn child(args: &[String]) {
             out["cwd"] = json!(std::env::current_dir().ok());
             out["config"] = cfg;
         }
+        "lib-wide" => w25_child_lib_wide(&mut out),
+        "wasm-wide" => w25_child_wasm_wide(&mut out),
+        "server-wide" => w25_child_server_wide(&mut out, &tmp),
         _ => {
             out["error"] = json!("unknown scenario");
         }
@@ -1608,6 +1611,14 @@ pub fn run(ctx: &Ctx) {
                 extra.insert(sc.to_string(), path_scenario(&mut sess, &out_abs, sc));
             } else if sc == "savedict" && strace_available() {
                 extra.insert(sc.to_string(), savedict_scenario(&mut sess, &out_abs));
+            } else if sc == "lib-wide" && strace_available() {
+                extra.insert(sc.to_string(), w25_traced_child(&mut sess, &out_abs, "lib-wide", "eff lib"));
+            } else if sc == "wasm-wide" && strace_available() {
+                extra.insert(sc.to_string(), w25_traced_child(&mut sess, &out_abs, "wasm-wide", "eff wasm"));
+            } else if sc == "server-wide" && strace_available() {
+                extra.insert(sc.to_string(), w25_traced_child_opt(&mut sess, &out_abs, "server-wide", None));
+            } else if sc.starts_with("cli-") && strace_available() {
+                extra.insert("harper_cli_executable".into(), w25_cli_scenarios(&mut sess, &out_abs, ctx.tier == Tier::Thorough));
             }
         }
         sess.nontrivial("replay-a");
@@ -1659,6 +1670,7 @@ pub fn run(ctx: &Ctx) {
 
     // ---- 2. lookups ------------------------------------------------------------------------------
     extra.insert("dependency_closure_lookup".into(), dependency_closure());
+    w25_dependency_monitor(&mut sess, &dependency_closure());
     let scan = source_scan();
     sess.monitor("harper-ls main.rs binds exactly one listener, on 127.0.0.1:4000 (text search)", scan["listener_is_loopback_4000"] == json!(true));
     extra.insert("source_scan_lookup".into(), scan);
@@ -1760,6 +1772,9 @@ pub fn run(ctx: &Ctx) {
         if !t.unix_sockets.is_empty() {
             sess.count("af-unix-sockets-seen");
         }
+        for r in w25_resolver_reads(&calls) {
+            sess.fail("c10-resolver-files-read", format!("scenario {}: the host-name resolver's files are read: {}", scenario, r), json!({"scenario": scenario}), Some(case));
+        }
         scen_report.insert(
             scenario.into(),
             json!({
@@ -1770,6 +1785,11 @@ pub fn run(ctx: &Ctx) {
             }),
         );
     }
+    // (w25) a wider library scenario, and the command-line executable
+    scen_report.insert("lib-wide".into(), w25_traced_child(&mut sess, &out_abs, "lib-wide", "eff lib"));
+    scen_report.insert("wasm-wide".into(), w25_traced_child(&mut sess, &out_abs, "wasm-wide", "eff wasm"));
+    scen_report.insert("server-wide".into(), w25_traced_child_opt(&mut sess, &out_abs, "server-wide", None));
+    extra.insert("harper_cli_executable".into(), w25_cli_scenarios(&mut sess, &out_abs, ctx.tier == Tier::Thorough));
     for (k, v) in path_reports {
         scen_report.insert(k, v);
     }
@@ -1796,4 +1816,504 @@ pub fn run(ctx: &Ctx) {
         false,
         Value::Object(extra),
     );
+}
+
+// ------------------------------------------------------------------------------------------
+// w25 additions: the command-line component under strace, the resolver's files, the dependency
+// closure as a monitor, a wider library scenario (oracle-only, or reusing the `eff lib` op)
+// ------------------------------------------------------------------------------------------
+
+/// The syscall-level footprint of `getaddrinfo` that needs no socket: the resolver's configuration
+/// and host tables opened for reading ("resolves a host name" with a `files`-only resolver).
+fn w25_resolver_reads(calls: &[Sys]) -> Vec<String> {
+    const RESOLVER_FILES: [&str; 6] = ["/etc/resolv.conf", "/etc/hosts", "/etc/host.conf", "/etc/gai.conf", "/etc/hosts.allow", "/run/systemd/resolve/stub-resolv.conf"];
+    let mut out = vec![];
+    for c in calls {
+        if matches!(c.name.as_str(), "openat" | "open") {
+            if let Some(p) = quoted(&c.args).into_iter().next() {
+                let p = norm(&p);
+                if RESOLVER_FILES.contains(&p.as_str()) {
+                    out.push(format!("{}({}) = {}", c.name, c.args, c.ret));
+                }
+            }
+        }
+    }
+    out
+}
+
+fn w25_cli_binary_path() -> PathBuf {
+    PathBuf::from(env!("CARGO_MANIFEST_DIR")).join("target").join("lsbin").join("debug").join("harper-cli")
+}
+
+/// `cargo build -p harper-cli` into the harness's own target directory (as C13 does; `--locked`).
+fn w25_build_cli_binary(timeout_s: u64) -> Result<(), String> {
+    let target = PathBuf::from(env!("CARGO_MANIFEST_DIR")).join("target").join("lsbin");
+    let mut child = std::process::Command::new("cargo")
+        .args(["build", "--offline", "--locked", "-p", "harper-cli", "--manifest-path", "/repo/Cargo.toml", "--target-dir"])
+        .arg(&target)
+        .env("CARGO_NET_OFFLINE", "true")
+        .stdout(std::process::Stdio::null())
+        .stderr(std::process::Stdio::null())
+        .spawn()
+        .map_err(|e| e.to_string())?;
+    let t0 = std::time::Instant::now();
+    loop {
+        match child.try_wait() {
+            Ok(Some(st)) => return if st.success() { Ok(()) } else { Err(format!("cargo build -p harper-cli failed ({})", st)) },
+            Ok(None) => {
+                if t0.elapsed().as_secs() > timeout_s {
+                    let _ = child.kill();
+                    return Err(format!("cargo build -p harper-cli did not finish in {} s", timeout_s));
+                }
+                std::thread::sleep(std::time::Duration::from_millis(100));
+            }
+            Err(e) => return Err(e.to_string()),
+        }
+    }
+}
+
+/// The COMMAND-LINE component: the real `harper-cli` executable, every sub-command that parses,
+/// lints or summarises, each in its own process under strace, on Markdown / Rust / Typst / literate
+/// Haskell documents (non-ASCII file name, CRLF, astral characters, an empty document), with
+/// explicit and with default (HOME / XDG) dictionary paths, an existing user dictionary, and a
+/// statistics log. O: no network-family syscall, no resolver file read, and no file created,
+/// modified, renamed, removed or directory made other than the configured dictionary / statistics
+/// files (harper-cli persists nothing, so in fact: no write at all).
+fn w25_cli_scenarios(sess: &mut Session, out_abs: &Path, thorough: bool) -> Value {
+    if let Err(e) = w25_build_cli_binary(if thorough { 900 } else { 240 }) {
+        let _ = std::fs::remove_file(w25_cli_binary_path()); // never trace a stale executable
+        sess.count("cli:not-built(stream skipped)");
+        return json!({"error": e});
+    }
+    let bin = w25_cli_binary_path();
+    let tmp = out_abs.join("c10-cli");
+    let _ = std::fs::remove_dir_all(&tmp);
+    let home = tmp.join("home");
+    let docs = tmp.join("docs");
+    let user = home.join("config").join("harper-ls").join("dictionary.txt");
+    let fdir = home.join("data").join("harper-ls").join("file_dictionaries");
+    let stats = home.join("data").join("harper-ls").join("stats.txt");
+    std::fs::create_dir_all(user.parent().unwrap()).unwrap();
+    std::fs::create_dir_all(&fdir).unwrap();
+    std::fs::create_dir_all(&docs).unwrap();
+    std::fs::write(&user, "zqprivateword\nzqsecond\n").unwrap();
+    let md = docs.join("my notes ü.md");
+    let rs = docs.join("lib.rs");
+    let typ = docs.join("paper.typ");
+    let lhs = docs.join("story.lhs");
+    let empty = docs.join("empty.md");
+    let long = docs.join("long.md");
+    std::fs::write(&md, "# Private notes 😀\r\n\r\nThis is an test of the the checker. Teh end, zqprivateword.\r\nMy pasword is hunter2 , dont tell any one — see https://example.com/secret?token=abc and mail me@example.com.\r\n\r\n* ｆｕｌｌｗｉｄｔｈ and e\u{301} and 👩\u{200d}👩\u{200d}👧\r\n").unwrap();
+    std::fs::write(&rs, "//! Teh crate docs, see <https://example.org/x>.\n/// An helper fucntion for zqident.\nfn zqident() {} // the the end\n").unwrap();
+    std::fs::write(&typ, "= Teh title\n\nThis is an test of #emph[the the] checker. See #link(\"https://example.net\")[here].\n").unwrap();
+    std::fs::write(&lhs, "Teh literate intro with an error.\n\n> main = putStrLn \"hi\"\n\nAnd teh the the end.\n").unwrap();
+    std::fs::write(&empty, "").unwrap();
+    std::fs::write(&long, "This is an test of teh checker with a verylongwordverylongwordverylongwordverylongwordverylongword inside. ".repeat(if thorough { 30 } else { 10 })).unwrap();
+    {
+        use harper_stats::{Record, RecordKind, Stats};
+        let mk = |content: &str| {
+            Record::now(RecordKind::Lint {
+                kind: harper_core::linting::LintKind::Spelling,
+                context: vec![harper_core::FatStringToken { content: content.to_string(), kind: harper_core::TokenKind::Word(None) }],
+            })
+        };
+        let st = Stats { records: vec![mk("teh"), mk("pasword \"x\"\r\n😀"), mk("teh")] };
+        if let Ok(mut f) = std::fs::File::create(&stats) {
+            let _ = st.write(&mut f);
+        }
+    }
+    // a file dictionary for the Markdown document, under the name harper-cli derives for it
+    // (harper-cli's own, path-based naming: every component but the root, each followed by `%`)
+    let fd_name: String = md.components().filter(|c| !matches!(c, Component::RootDir)).map(|c| format!("{}%", c.as_os_str().to_string_lossy())).collect();
+    let _ = std::fs::write(fdir.join(&fd_name), "hunter2\n");
+    let s = |p: &Path| p.to_string_lossy().to_string();
+    let mut runs: Vec<(&str, Vec<String>, bool)> = vec![
+        // (name, arguments, default paths from HOME/XDG instead of explicit ones)
+        ("lint-md-explicit-paths", vec!["lint".into(), s(&md), "--user-dict-path".into(), s(&user), "--file-dict-path".into(), s(&fdir)], false),
+        ("lint-rs-default-paths-british", vec!["lint".into(), s(&rs), "--dialect".into(), "British".into()], true),
+        ("lint-typ-count-one-rule", vec!["lint".into(), s(&typ), "--count".into(), "--only-lint-with".into(), "SpellCheck".into()], true),
+        ("spans-lhs", vec!["spans".into(), s(&lhs), "--include-newlines".into()], true),
+        ("summarize-lint-record", vec!["summarize-lint-record".into(), s(&stats)], true),
+    ];
+    if thorough {
+        runs.push(("lint-empty-md", vec!["lint".into(), s(&empty)], true));
+        runs.push(("parse-md", vec!["parse".into(), s(&md)], true));
+        runs.push(("mine-words-long-md", vec!["mine-words".into(), s(&long)], true));
+        runs.push(("lint-long-md-australian", vec!["lint".into(), s(&long), "--dialect".into(), "Australian".into()], true));
+        runs.push(("lint-lhs-canadian", vec!["lint".into(), s(&lhs), "--dialect".into(), "Canadian".into()], true));
+        runs.push(("config", vec!["config".into()], true));
+        runs.push(("metadata", vec!["metadata".into(), "teh".into()], true));
+        runs.push(("forms", vec!["forms".into(), "walk/DGS".into()], true));
+        runs.push(("words", vec!["words".into()], true));
+        runs.push(("lint-missing-file", vec!["lint".into(), s(&docs.join("no such file.md"))], true));
+    }
+    let t0 = std::time::Instant::now();
+    let results = par_map(runs.len(), 8, |i| {
+        let (name, args, _) = &runs[i];
+        let trace_file = out_abs.join(format!("c10-cli-{}.strace", name));
+        let _ = std::fs::remove_file(&trace_file);
+        let out = std::process::Command::new("strace")
+            .args(["-f", "-qq", "-e", &format!("trace={}", TRACE_SET), "-s", "4096", "-o"])
+            .arg(&trace_file)
+            .arg(&bin)
+            .args(args)
+            .env("HOME", &home)
+            .env("XDG_CONFIG_HOME", home.join("config"))
+            .env("XDG_DATA_HOME", home.join("data"))
+            .env_remove("XDG_CACHE_HOME")
+            .current_dir(&docs)
+            .stdin(std::process::Stdio::null())
+            .stdout(std::process::Stdio::piped())
+            .stderr(std::process::Stdio::piped())
+            .output();
+        let text = std::fs::read_to_string(&trace_file).unwrap_or_default();
+        (out.ok().map(|o| (o.status.code(), o.stdout.len(), String::from_utf8_lossy(&o.stderr).to_string())), text)
+    });
+    let mut rep = serde_json::Map::new();
+    rep.insert("seconds".into(), json!((t0.elapsed().as_secs_f64() * 100.0).round() / 100.0));
+    let doc_reads: Vec<String> = [&md, &rs, &typ, &lhs, &empty, &long].iter().map(|p| s(p)).collect();
+    for ((name, args, _), (out, text)) in runs.iter().zip(results.into_iter()) {
+        // `lint` exits 1 when it reports lints; a missing file is an error exit — both are runs of the real code
+        let ran = matches!(&out, Some((Some(c), _, _)) if *c == 0 || *c == 1) && !text.is_empty();
+        sess.monitor("strace could trace harper-cli and the sub-command ran to its end", ran);
+        if !ran {
+            rep.insert(name.to_string(), json!({"error": "harper-cli did not run under strace", "detail": format!("{:?}", out.as_ref().map(|o| (o.0, trunc(&o.2, 300))))}));
+            continue;
+        }
+        let calls = parse_trace(&text);
+        let sc = Scope { home: s(&tmp), user: s(&user), fdir: s(&fdir), stats: s(&stats), own: vec![] };
+        let t = classify(&calls, &sc, &doc_reads);
+        let resolver = w25_resolver_reads(&calls);
+        sess.o();
+        sess.count(&format!("cli-scenario:{}", name));
+        sess.nontrivial(&format!("cli|{}", name));
+        let input = json!({"scenario": format!("cli-{}", name), "args": args});
+        for b in &t.bad {
+            let class = if b.starts_with("network") { "c10-cli-network-syscall" } else { "c10-cli-write-outside" };
+            sess.fail(class, format!("real harper-cli ({}): {}", name, b), input.clone(), None);
+        }
+        for r in &resolver {
+            sess.fail("c10-cli-resolver-files-read", format!("real harper-cli ({}): the host-name resolver's files are read: {}", name, r), input.clone(), None);
+        }
+        // what it read under the temp HOME: the dictionaries it was pointed at (reported)
+        let writes: Vec<&String> = t.effects.iter().filter(|e| !e.starts_with("r:")).collect();
+        if !writes.is_empty() {
+            sess.count("cli-scenario:writes-to-configured-files");
+        }
+        rep.insert(
+            name.to_string(),
+            json!({"syscalls_traced": t.n_calls, "exit": out.as_ref().and_then(|o| o.0), "stdout_bytes": out.as_ref().map(|o| o.1), "effects_observed": t.effects,
+                   "network_family_calls": t.network, "af_unix_sockets": t.unix_sockets, "resolver_files_read": resolver, "violations": t.bad}),
+        );
+    }
+    Value::Object(rep)
+}
+
+/// The dependency closure as an assumption monitor: no network-capable crate in the `Cargo.lock`
+/// closure of harper-core, harper-wasm and harper-cli; in harper-ls's only what tokio's `net`
+/// feature (the loopback listener) brings in.
+fn w25_dependency_monitor(sess: &mut Session, closure: &Value) {
+    const LS_ALLOWED: [&str; 2] = ["mio", "socket2"];
+    let mut unexpected: Vec<String> = vec![];
+    for root in ["harper-ls", "harper-cli", "harper-wasm", "harper-core"] {
+        let hits: Vec<String> = closure[root]["network_capable_crates_found"].as_array().map(|a| a.iter().filter_map(|x| x.as_str().map(|y| y.to_string())).collect()).unwrap_or_default();
+        for h in hits {
+            if !(root == "harper-ls" && LS_ALLOWED.contains(&h.as_str())) {
+                unexpected.push(format!("{}→{}", root, h));
+            }
+        }
+        sess.monitor("the Cargo.lock closure of the shipped crate could be computed", closure[root]["crates_in_closure"].as_u64().unwrap_or(0) > 1);
+    }
+    sess.monitor("no network-capable crate in the Cargo.lock closure of harper-core / harper-wasm / harper-cli; harper-ls: only tokio's mio + socket2 (lookup)", unexpected.is_empty());
+    if !unexpected.is_empty() {
+        sess.count(&format!("dependency-closure:unexpected:{}", unexpected.join(",")));
+    }
+}
+
+/// child scenario `lib-wide` (same effect prediction as `lib`: the library touches nothing): every
+/// `Document::new*` constructor × every dialect on empty / whitespace-only / CRLF / lone-CR / astral /
+/// combining / fullwidth / very long texts, a merged dictionary with user words (case variants,
+/// apostrophes), title-casing, and `Stats::write` / `Stats::read` in memory.
+fn w25_child_lib_wide(out: &mut Value) {
+    use harper_core::linting::{LintGroup, Linter};
+    use harper_core::{Dialect, Document, FstDictionary, MergedDictionary, MutableDictionary, WordMetadata};
+    let curated = FstDictionary::curated();
+    let mut user = MutableDictionary::new();
+    for w in ["zqprivateword", "Zqprivateword", "ZQPRIVATEWORD", "o'zq", "O’Zq", "naïveté"] {
+        user.append_word_str(w, WordMetadata::default());
+    }
+    let mut merged = MergedDictionary::new();
+    merged.add_dictionary(curated.clone());
+    merged.add_dictionary(std::sync::Arc::new(user));
+    let merged = std::sync::Arc::new(merged);
+    let long_word = "verylongword".repeat(25);
+    let long_doc = "This is an test of teh checker, zqprivateword. ".repeat(40);
+    let texts: Vec<String> = vec![
+        "".into(),
+        " \t ".into(),
+        "\r\n\r\n".into(),
+        "Teh first line.\r\nThe the second line.\rA lone CR line.\n".into(),
+        "Private 😀 notes: my pasword is hunter2 , dont tell any one. 👩\u{200d}👩\u{200d}👧 e\u{301}\u{301} ｆｕｌｌｗｉｄｔｈ ｔｅｈ.".into(),
+        format!("An {} here.", long_word),
+        long_doc,
+        "Teh teh teh teh. An apple an apple an orange an orange. o'zq O’Zq ZQPRIVATEWORD naïveté.".into(),
+        "# Teh title\n\n* an item , here\n* [a link](https://example.com/secret?token=abc) and `code`\n\n> quoted teh\n".into(),
+    ];
+    let mut n = 0usize;
+    let mut docs = 0usize;
+    for (di, dialect) in [Dialect::American, Dialect::British, Dialect::Australian, Dialect::Canadian].into_iter().enumerate() {
+        for (ti, text) in texts.iter().enumerate() {
+            // every constructor with every text, every dialect with every text; not the full cube
+            for ctor in [(ti + di) % 4] {
+                if (ti == 5 || ti == 6) && di > 1 {
+                    continue; // the long texts: two dialects are enough (spell-checking them is slow under strace)
+                }
+                let r = guarded(|| {
+                    let doc = match ctor {
+                        0 => Document::new_plain_english(text, &*merged),
+                        1 => Document::new_markdown_default(text, &*merged),
+                        2 => Document::new_plain_english_curated(text),
+                        _ => Document::new_markdown_default_curated(text),
+                    };
+                    let mut g = if ctor < 2 { LintGroup::new_curated(merged.clone(), dialect) } else { LintGroup::new_curated(curated.clone(), dialect) };
+                    if ti % 2 == 0 {
+                        g.config.fill_with_curated();
+                    } else {
+                        g.set_all_rules_to(Some(true));
+                    }
+                    // a long-lived group: lint twice
+                    let a = g.lint(&doc).len();
+                    let b = g.lint(&doc).len();
+                    a + b
+                });
+                docs += 1;
+                if let Ok(k) = r {
+                    n += k;
+                }
+            }
+        }
+    }
+    let _ = guarded(|| harper_core::make_title_case_str("a tale of teh two cities 😀", &harper_core::parsers::PlainEnglish, &*curated));
+    // statistics through memory only
+    let recs = {
+        use harper_stats::{Record, RecordKind, Stats};
+        let st = Stats { records: vec![Record::now(RecordKind::LintConfigUpdate(harper_core::linting::LintGroupConfig::default()))] };
+        let mut buf = Vec::new();
+        let _ = st.write(&mut buf);
+        Stats::read(&mut std::io::Cursor::new(buf)).map(|s| s.records.len()).unwrap_or(0)
+    };
+    out["lints"] = json!(n);
+    out["documents"] = json!(docs);
+    out["stats_records"] = json!(recs);
+}
+
+/// Run one child scenario of this executable under strace and judge it like `run` judges `lib`.
+fn w25_traced_child(sess: &mut Session, out_abs: &Path, scenario: &str, op: &str) -> Value {
+    w25_traced_child_opt(sess, out_abs, scenario, Some(op))
+}
+
+/// `op = None`: oracle only (no model line: the scenario's script has no op in the Lean driver)
+fn w25_traced_child_opt(sess: &mut Session, out_abs: &Path, scenario: &str, op: Option<&str>) -> Value {
+    let exe = std::env::current_exe().unwrap();
+    let tmp = out_abs.join(format!("c10-{}", scenario));
+    let _ = std::fs::remove_dir_all(&tmp);
+    std::fs::create_dir_all(&tmp).unwrap();
+    let trace_file = out_abs.join(format!("c10-{}.strace", scenario));
+    let _ = std::fs::remove_file(&trace_file);
+    let t0 = std::time::Instant::now();
+    let output = std::process::Command::new("strace")
+        .args(["-f", "-qq", "-e", &format!("trace={}", TRACE_SET), "-s", "4096", "-o"])
+        .arg(&trace_file)
+        .arg(&exe)
+        .args(["C10-child", scenario])
+        .arg(&tmp)
+        .output();
+    let secs = t0.elapsed().as_secs_f64();
+    let (ok, stdout, stderr) = match &output {
+        Ok(o) => (o.status.success(), String::from_utf8_lossy(&o.stdout).to_string(), String::from_utf8_lossy(&o.stderr).to_string()),
+        Err(e) => (false, String::new(), e.to_string()),
+    };
+    let child: Value = stdout.lines().find_map(|l| l.strip_prefix("C10-CHILD ")).and_then(|j| serde_json::from_str(j).ok()).unwrap_or(json!({}));
+    let text = std::fs::read_to_string(&trace_file).unwrap_or_default();
+    let traced_ok = ok && !text.is_empty() && child.get("error").is_none() && child.get("scenario").is_some();
+    sess.monitor("strace could trace the child process and the scenario ran to its end", traced_ok);
+    if !traced_ok {
+        return json!({"error": "child did not run under strace", "stderr": trunc(&stderr, 400), "child": child});
+    }
+    let calls = parse_trace(&text);
+    let own = vec![norm(&tmp.join("home").to_string_lossy())];
+    let sc = Scope {
+        home: tmp.to_string_lossy().to_string(),
+        user: child["user_dict"].as_str().unwrap_or("").to_string(),
+        fdir: child["file_dict_dir"].as_str().unwrap_or("").trim_end_matches('/').to_string(),
+        stats: child["stats"].as_str().unwrap_or("").to_string(),
+        own: own.clone(),
+    };
+    let calls: Vec<Sys> = calls
+        .into_iter()
+        .filter(|c| {
+            if c.name.starts_with("mkdir") {
+                let p = quoted(&c.args).into_iter().next().map(|p| norm(&p)).unwrap_or_default();
+                !(own.contains(&p) || p == sc.home)
+            } else {
+                true
+            }
+        })
+        .collect();
+    let t = classify(&calls, &sc, &[]);
+    let resolver = w25_resolver_reads(&calls);
+    let imp = format!("ok {}", t.effects.iter().cloned().collect::<Vec<_>>().join(" ")).trim_end().to_string();
+    let _ = &imp;
+    let case = op.map(|op| sess.k(op, &imp));
+    sess.nontrivial(&format!("{}|{}", op.unwrap_or("o-only"), scenario));
+    sess.o();
+    sess.count(&format!("traced-child:{}", scenario));
+    for b in &t.bad {
+        let class = if b.starts_with("network") { "c10-network-syscall" } else { "c10-write-outside" };
+        sess.fail(class, format!("scenario {}: {}", scenario, b), json!({"scenario": scenario}), case);
+    }
+    for r in &resolver {
+        sess.fail("c10-resolver-files-read", format!("scenario {}: the host-name resolver's files are read: {}", scenario, r), json!({"scenario": scenario}), case);
+    }
+    json!({"syscalls_traced": t.n_calls, "seconds": (secs * 100.0).round() / 100.0, "network_family_calls": t.network, "af_unix_sockets": t.unix_sockets,
+           "effects_observed": t.effects, "resolver_files_read": resolver, "violations": t.bad, "child": child})
+}
+
+/// child scenario `wasm-wide` (same effect prediction as `wasm`: the JS-facing API touches nothing):
+/// every dialect, Markdown and plain, hostile texts, a LONG-LIVED linter (configuration set from JSON
+/// with null / unknown keys, words imported, lints ignored, suggestions applied, statistics and
+/// ignore lists exported and imported into a NEW linter), every natively callable method.
+fn w25_child_wasm_wide(out: &mut Value) {
+    use harper_wasm::{Dialect as WDialect, Language, Linter as WLinter};
+    let texts = [
+        "".to_string(),
+        "\r\n \t".to_string(),
+        "This is an test of the the checker.\r\nTeh end, zqprivateword.\rA lone CR.".to_string(),
+        "# Private 😀 notes\n\nmy pasword is hunter2 , dont tell any one. 👩\u{200d}👩\u{200d}👧 e\u{301} ｆｕｌｌｗｉｄｔｈ ｔｅｈ. See https://example.com/x?token=abc\n\n* teh item\n* teh item\n".to_string(),
+        "Teh checker. ".repeat(60),
+    ];
+    let mut lints_n = 0usize;
+    let mut applied = 0usize;
+    let mut exports = vec![];
+    for d in [WDialect::American, WDialect::British, WDialect::Australian, WDialect::Canadian] {
+        let mut l = WLinter::new(d);
+        let _ = l.get_dialect();
+        let _ = l.set_lint_config_from_json(r#"{"SpellCheck": true, "LongSentences": null, "NoSuchRule": false}"#.to_string());
+        l.import_words(vec!["zqprivateword".into(), "Zqprivateword".into(), "o'zq".into(), "naïveté".into()]);
+        for t in &texts {
+            for lang in [Language::Plain, Language::Markdown] {
+                let Ok(ls) = guarded(|| l.lint(t.clone(), lang)) else { continue };
+                lints_n += ls.len();
+                if let Some(first) = ls.first() {
+                    if let Some(sg) = first.suggestions().first() {
+                        if guarded(|| l.apply_suggestion(t.clone(), first, sg)).is_ok() {
+                            applied += 1;
+                        }
+                    }
+                }
+                if let Some(last) = ls.into_iter().last() {
+                    let _ = guarded(|| l.ignore_lint(t.clone(), last));
+                }
+                let _ = guarded(|| l.lint(t.clone(), lang)); // again, on the long-lived instance
+                let _ = guarded(|| l.is_likely_english(t.clone()));
+                let _ = guarded(|| l.isolate_english(t.clone()));
+            }
+        }
+        let stats = l.generate_stats_file();
+        let ignored = l.export_ignored_lints();
+        let words = l.export_words();
+        let cfg = l.get_lint_config_as_json();
+        let _ = l.get_lint_descriptions_as_json();
+        // a NEW linter takes everything over
+        let mut fresh = WLinter::new(d);
+        let _ = fresh.import_stats_file(stats.clone());
+        let _ = fresh.import_ignored_lints(ignored);
+        fresh.import_words(words);
+        let _ = fresh.set_lint_config_from_json(cfg);
+        let _ = guarded(|| fresh.lint(texts[3].clone(), Language::Markdown));
+        fresh.clear_ignored_lints();
+        exports.push(stats.lines().count());
+    }
+    let _ = harper_wasm::get_default_lint_config_as_json();
+    let _ = guarded(|| harper_wasm::to_title_case("a tale of teh two cities 😀\r\n".to_string()));
+    out["lints"] = json!(lints_n);
+    out["applied"] = json!(applied);
+    out["stats_lines"] = json!(exports);
+}
+
+/// child scenario `server-wide`: the in-process server on every language family `update_document`
+/// switches on (tree-sitter comments with an identifier dictionary, literate Haskell, Markdown, git
+/// commit, HTML, mail / plain text, Typst, an unknown language id), hostile texts, two documents open
+/// at once, the real code-action commands (ignore, record) executed with their embedded arguments,
+/// words with apostrophes and case variants added to both dictionaries, configuration changes with
+/// null and unknown keys, and a SECOND session on the same HOME (new instance on old files).
+fn w25_child_server_wide(out: &mut Value, tmp: &Path) {
+    let docs_dir = tmp.join("docs");
+    let hostile = "This is an test of the the checker.\r\nTeh end 😀, zqprivateword and ｔｅｈ e\u{301}.\rMy pasword is hunter2 , see https://example.com/x?token=abc";
+    let docs: Vec<(String, &str, String)> = vec![
+        (file_url(&docs_dir.join("a ü.txt")), "plaintext", hostile.to_string()),
+        (file_url(&docs_dir.join("b.md")), "markdown", format!("# Teh title\n\n{}\n\n* teh item\n* teh item\n", hostile)),
+        (file_url(&docs_dir.join("c.py")), "python", "# Teh helper fucntion for zq_ident , see the the docs\ndef zq_ident():\n    pass  # an error\n".to_string()),
+        (file_url(&docs_dir.join("d.lhs")), "literate haskell", "Teh literate intro with an error.\n\n> zqMain = putStrLn \"hi\"\n\nAnd teh the the end.\n".to_string()),
+        (file_url(&docs_dir.join("COMMIT_EDITMSG")), "gitcommit", "Fix teh bug\n\nThis is an test.\n# Please enter the commit message\n".to_string()),
+        (file_url(&docs_dir.join("e.html")), "html", "<html><body><p>This is an test of teh <b>the the</b> checker.</p><script>var teh = 1;</script></body></html>".to_string()),
+        (file_url(&docs_dir.join("f.eml")), "mail", "Teh mail body with an error.\r\n".to_string()),
+        (file_url(&docs_dir.join("g.typ")), "typst", "= Teh title\n\nThis is an test of #emph[the the] checker.\n".to_string()),
+        (file_url(&docs_dir.join("h.xyz")), "no-such-language", "Teh text in an unknown language id.".to_string()),
+        (file_url(&docs_dir.join("empty.md")), "markdown", "".to_string()),
+        ("untitled:Untitled-1".to_string(), "plaintext", "Teh untitled buffer with an error.".to_string()),
+    ];
+    let cfg = json!({"harper-ls": {}});
+    let cfg2 = json!({"harper-ls": {"diagnosticSeverity": "error", "dialect": "British", "linters": {"SpellCheck": true, "LongSentences": null, "NoSuchRule": false}, "codeActions": {"ForceStable": true}, "markdown": {"IgnoreLinkTitle": true}, "isolateEnglish": true, "unknownKey": null}});
+    let res: Result<Value, LsError> = (|| {
+        let mut executed = 0;
+        let mut pubs = 0;
+        for session in 0..2 {
+            let c = if session == 0 { &cfg } else { &cfg2 };
+            let mut ls = LsSession::start()?;
+            ls.initialize(c)?;
+            for (uri, lang, text) in &docs {
+                ls.notify("textDocument/didOpen", did_open(uri, lang, text))?;
+            }
+            ls.quiesce(c)?;
+            for (i, (uri, _, text)) in docs.iter().enumerate() {
+                let diags: Vec<Value> = ls.last_publication(uri).and_then(|d| d.as_array().cloned()).unwrap_or_default();
+                for d in diags.iter().take(2) {
+                    let start = d["range"]["start"].clone();
+                    let resp = ls.request_sync("textDocument/codeAction", json!({"textDocument": {"uri": uri}, "range": {"start": start, "end": start}, "context": {"diagnostics": []}}), c)?;
+                    let mut cmds: Vec<(String, Value)> = vec![];
+                    for a in resp["result"].as_array().cloned().unwrap_or_default() {
+                        let cmd = if a["command"].is_object() { a["command"].clone() } else { a.clone() };
+                        if let Some(name) = cmd["command"].as_str() {
+                            // every embedded command but the user-initiated open-URL one
+                            if name != "HarperOpen" && !cmds.iter().any(|x| x.0 == name) {
+                                cmds.push((name.to_string(), cmd["arguments"].clone()));
+                            }
+                        }
+                    }
+                    for (name, args) in cmds {
+                        ls.request_sync("workspace/executeCommand", json!({"command": name, "arguments": args}), c)?;
+                        executed += 1;
+                    }
+                }
+                let w = ["o'zq", "Zqprivateword", "zqprivateword", "naïveté", "ｔｅｈ"][i % 5];
+                ls.request_sync("workspace/executeCommand", json!({"command": if i % 2 == 0 { "HarperAddToUserDict" } else { "HarperAddToFileDict" }, "arguments": [w, uri]}), c)?;
+                ls.notify("textDocument/didChange", did_change(uri, 2, &format!("{}\n\nMore teh text.", text)))?;
+            }
+            ls.quiesce(c)?;
+            ls.notify("workspace/didChangeConfiguration", json!({"settings": cfg2}))?;
+            ls.quiesce(&cfg2)?;
+            for (uri, _, _) in docs.iter().take(3) {
+                ls.notify("textDocument/didClose", did_close(uri))?;
+            }
+            ls.quiesce(&cfg2)?;
+            pubs += ls.all_publications().len();
+            ls.shutdown(&cfg2)?;
+        }
+        Ok(json!({"publications": pubs, "embedded_commands_executed": executed}))
+    })();
+    match res {
+        Ok(v) => out["result"] = v,
+        Err(e) => out["error"] = json!(e.to_string()),
+    }
 }
